@@ -467,6 +467,13 @@ func (c *SpecCtx) bin(e *SBin) Val {
 			o = r
 		}
 		var t string
+		if o.Clo != nil || o.Fn != nil {
+			// a closure or function value known to the executor is never nil
+			if e.Op == "!=" {
+				return specVal("true", "Bool")
+			}
+			return specVal("false", "Bool")
+		}
 		switch x.sortOf(o) {
 		case "Ptr":
 			t = "(= (p_reg " + o.S + ") 0)"
